@@ -10,6 +10,7 @@ import (
 	"github.com/nuetzliches/hookaido/internal/app"
 	"github.com/nuetzliches/hookaido/internal/queue"
 	"github.com/nuetzliches/hookaido/internal/verifkit/runner"
+	"github.com/nuetzliches/hookaido/internal/verifkit/vrand"
 )
 
 // TestRace: side condition of the C18(b) exploration — reload and requests as free goroutines under -race.
@@ -17,6 +18,19 @@ func TestRace(t *testing.T) {
 	if os.Getenv("VERIF_RACE") == "" {
 		t.Skip("race pass only")
 	}
+	// reload against the running push dispatcher (dispatch_test.go)
+	vrand.SetFloat64(func() float64 { return 0.75 })
+	fam := dFamily()
+	u := dUniverseOf(fam)
+	for _, m := range fam[1:] {
+		switch m.name {
+		case "reloadable:ingress-password", "reloadable:pull-route-removed", "route:pull-moved-between-delivers", "route:deliver-to-outbound", "egress:allow-ip-to-cidr", "route:deliver-removed":
+			for it := 0; it < 3; it++ {
+				dRaceRun(t, u, fam[0], m, 31900, filepath.Join(runner.Scratch(), "race18d"))
+			}
+		}
+	}
+	vrand.SetFloat64(nil)
 	for _, p := range pairs {
 		for it := 0; it < 40; it++ {
 			st := queue.NewMemoryStore()
